@@ -7,8 +7,30 @@ use tantivy::directory::RamDirectory;
 use crate::common::*;
 use crate::hist::*;
 
+/// which property's oracle the history engine applies: 0 = C02 (content / opstamps), 1 = C10 (directory
+/// exact after commit + collection, on SimDirectory), 2 = C05 (a long-lived reader reloaded after every
+/// operation, held searchers re-read at the end)
+pub static MODE: std::sync::atomic::AtomicU8 = std::sync::atomic::AtomicU8::new(0);
+
+pub fn set_mode(m: u8) {
+    MODE.store(m, std::sync::atomic::Ordering::SeqCst);
+}
+
+fn mode_of(prop: &str) -> u8 {
+    match prop {
+        "C10" => 1,
+        "C05" => 2,
+        _ => 0,
+    }
+}
+
 /// run one history (after a prefix) and compare after every observing operation
 pub fn run_history(prefix: &[Op], hist: &[Op], cfg: &Config, st: &mut Stats) -> Option<(String, String)> {
+    match MODE.load(std::sync::atomic::Ordering::SeqCst) {
+        1 => return run_history_c10(prefix, hist, cfg, st),
+        2 => return run_history_c05(prefix, hist, cfg, st),
+        _ => {}
+    }
     let mut h = match Harness::create(Box::new(RamDirectory::create()), cfg) {
         Ok(h) => h,
         Err(e) => return Some(("machinery".into(), format!("{e:?}"))),
@@ -68,6 +90,129 @@ pub fn run_history(prefix: &[Op], hist: &[Op], cfg: &Config, st: &mut Stats) -> 
         return Some(("writer_commit_opstamp_stale".into(), "IndexWriter::commit_opstamp() did not report the opstamp returned by the last commit".into()));
     }
     let _ = dev;
+    None
+}
+
+/// C10 over histories: after every commit (and after a closing commit) merges are awaited, a collection is
+/// run and the directory must hold exactly the committed files; nothing may leak after rollbacks, aborted
+/// commits, delete-all, merges or writer restarts. API failures are reported, content is C02's business.
+fn run_history_c10(prefix: &[Op], hist: &[Op], cfg: &Config, st: &mut Stats) -> Option<(String, String)> {
+    let sim = crate::simdir::SimDirectory::new();
+    sim.set_log_enabled(false);
+    let mut h = match Harness::create(Box::new(sim.clone()), cfg) {
+        Ok(h) => h,
+        Err(e) => return Some(("machinery".into(), format!("{e:?}"))),
+    };
+    let mut model = RefIndex::new();
+    let mut all: Vec<Op> = prefix.iter().chain(hist.iter()).copied().collect();
+    all.push(Op::Commit);
+    if cfg.eager_merges && prefix.is_empty() {
+        h.enable_eager_merges();
+    }
+    for (i, op) in all.iter().enumerate() {
+        if cfg.eager_merges && i == prefix.len() && !prefix.is_empty() {
+            h.enable_eager_merges();
+        }
+        st.count("transitions");
+        let r = h.exec(*op, &model);
+        model.apply(*op);
+        if let Err((rule, what)) = r {
+            if rule == "api_call_failed" {
+                let rule = if what.contains("FileDoesNotExist") || what.contains("does not exist") { "call_fails_needed_file_missing" } else { "call_fails" };
+                return Some((rule.into(), format!("step {i} {op:?}: {what}")));
+            }
+        }
+        if matches!(op, Op::Commit | Op::CommitPayload) {
+            st.count("observations");
+            wait_merges_quiescent();
+            let Some(w) = h.writer.as_ref() else { continue };
+            if let Err(e) = w.garbage_collect_files().wait() {
+                return Some(("call_fails".into(), format!("step {i}: garbage_collect_files: {e:?}")));
+            }
+            if let Err((rule, what)) = crate::wl::directory_exact(&sim, "_at_quiescence", "after a commit returned, merges finished and a collection ran,") {
+                return Some((rule, format!("after step {i} {op:?}: {what}")));
+            }
+            // the committed files are all readable
+            if let Err((rule, what)) = h.observe() {
+                let rule = if what.contains("FileDoesNotExist") { "needed_file_missing_when_opened".to_string() } else { rule };
+                return Some((rule, format!("after step {i} {op:?}: {what}")));
+            }
+        }
+    }
+    None
+}
+
+/// C05 over histories: one long-lived reader is reloaded after every operation; it must show exactly what a
+/// fresh open shows after a commit and must not change otherwise (no uncommitted work, no moving back);
+/// one searcher is held per published state and re-read at the end.
+fn run_history_c05(prefix: &[Op], hist: &[Op], cfg: &Config, st: &mut Stats) -> Option<(String, String)> {
+    let mut h = match Harness::create(Box::new(RamDirectory::create()), cfg) {
+        Ok(h) => h,
+        Err(e) => return Some(("machinery".into(), format!("{e:?}"))),
+    };
+    let reader: tantivy::IndexReader = match h.index.reader_builder().reload_policy(tantivy::ReloadPolicy::Manual).try_into() {
+        Ok(r) => r,
+        Err(e) => return Some(("reader_creation_fails".into(), format!("{e:?}"))),
+    };
+    let mut model = RefIndex::new();
+    let all: Vec<Op> = prefix.iter().chain(hist.iter()).copied().collect();
+    if cfg.eager_merges && prefix.is_empty() {
+        h.enable_eager_merges();
+    }
+    let mut held: Vec<(tantivy::Searcher, Vec<MDoc>)> = vec![(reader.searcher(), vec![])];
+    let mut prev: Vec<MDoc> = vec![];
+    for (i, op) in all.iter().enumerate() {
+        if cfg.eager_merges && i == prefix.len() && !prefix.is_empty() {
+            h.enable_eager_merges();
+        }
+        st.count("transitions");
+        let r = h.exec(*op, &model);
+        model.apply(*op);
+        if let Err((rule, what)) = r {
+            if rule == "api_call_failed" {
+                return Some(("call_fails".into(), format!("step {i} {op:?}: {what}")));
+            }
+        }
+        if cfg.eager_merges {
+            wait_merges_quiescent();
+        }
+        if let Err(e) = reader.reload() {
+            return Some(("reload_fails".into(), format!("after step {i} {op:?}: {e:?}")));
+        }
+        st.count("observations");
+        let s = reader.searcher();
+        let now = match observe_searcher(&s, &h.fields) {
+            Ok(v) => v,
+            Err((_, what)) => return Some(("searcher_inconsistent".into(), format!("after step {i} {op:?}: {what}"))),
+        };
+        if matches!(op, Op::Commit | Op::CommitPayload) {
+            let fresh = match h.observe() {
+                Ok(v) => v,
+                Err((rule, what)) => return Some((rule, format!("after step {i} {op:?}: {what}"))),
+            };
+            if now != fresh {
+                return Some(("reload_not_the_last_commit".into(), format!("after step {i} {op:?}: the reloaded reader shows {} but a fresh open shows {}", show_docs(&now), show_docs(&fresh))));
+            }
+        } else if now != prev {
+            return Some(("reload_not_a_commit".into(), format!("after step {i} {op:?} (not a commit) the reloaded reader shows {}; it showed {} after the last commit", show_docs(&now), show_docs(&prev))));
+        }
+        if now != prev || matches!(op, Op::MergeAll | Op::Commit | Op::CommitPayload) {
+            held.push((s, now.clone()));
+        }
+        prev = now;
+    }
+    // writer gone, files collected: every held searcher still answers as it did
+    if let Some(w) = h.writer.as_ref() {
+        let _ = w.garbage_collect_files().wait();
+    }
+    h.writer = None;
+    for (k, (s, was)) in held.iter().enumerate() {
+        match observe_searcher(s, &h.fields) {
+            Ok(v) if v == *was => {}
+            Ok(v) => return Some(("held_searcher_changed".into(), format!("searcher #{k} showed {} and now shows {}", show_docs(was), show_docs(&v)))),
+            Err((_, what)) => return Some(("held_searcher_fails".into(), format!("searcher #{k}: {what}"))),
+        }
+    }
     None
 }
 
@@ -167,6 +312,7 @@ pub fn replay(case: &Value) -> Vec<Violation> {
         return check_big_batch().map(|(r, w)| Violation::new(&r, w, case.clone())).into_iter().collect();
     }
     let flush: Option<u32> = case["flush_after"].as_u64().map(|x| x as u32);
+    set_mode(mode_of(case["prop"].as_str().unwrap_or("C02")));
     set_flush_after(flush);
     let mut st = Stats::default();
     // with background merges the outcome can depend on timing: a replay gets several attempts
@@ -221,6 +367,8 @@ pub fn worker(family: &str, start: u64, end: u64, step: u64, arg: &str) {
     quiet_panics();
     crate::iso::worker_guard(8 << 30, 60_000);
     let phase: usize = family.trim_start_matches('p').parse().unwrap_or(0);
+    let (arg, prop) = arg.split_once('|').unwrap_or((arg, "C02"));
+    set_mode(mode_of(prop));
     let thorough = arg == "thorough";
     let (flush, workers, _depth) = phases(thorough)[phase];
     set_flush_after(flush);
@@ -271,7 +419,7 @@ pub fn run_phases(ctx: &Ctx, prop: &str, which: &[usize]) -> (Stats, bool, Vec<V
             continue;
         }
         let cfg = cfg_of(pi, workers);
-        let o = crate::iso::run_isolated(ctx, prop, &format!("p{pi}"), work.len() as u64, ctx.tier.name());
+        let o = crate::iso::run_isolated(ctx, prop, &format!("p{pi}"), work.len() as u64, &format!("{}|{}", ctx.tier.name(), prop));
         complete &= o.complete;
         phase_info.push(json!({"flush_after":flush,"workers":workers,"depth":depth,"eager_merges":pi >= 4,"histories":work.len(),"completed":o.completed}));
         total.errors.extend(o.machinery_errors);
@@ -280,7 +428,7 @@ pub fn run_phases(ctx: &Ctx, prop: &str, which: &[usize]) -> (Stats, bool, Vec<V
             total.violation(Violation::new(
                 &format!("history_{kind}"),
                 format!("workers {workers} flush_after {flush:?} prefix {:?} history {:?}: the worker process did not return ({kind})", pre[p], hists[h]),
-                json!({"prefix":pre[p],"history":hists[h],"config":cfg,"flush_after":flush}),
+                json!({"prop":prop,"prefix":pre[p],"history":hists[h],"config":cfg,"flush_after":flush}),
             ));
         }
         for l in o.lines {
@@ -290,7 +438,7 @@ pub fn run_phases(ctx: &Ctx, prop: &str, which: &[usize]) -> (Stats, bool, Vec<V
                 total.violation(Violation::new(
                     v["rule"].as_str().unwrap_or("?"),
                     format!("workers {workers} flush_after {flush:?} eager_merges {} prefix {:?} history {:?}: {}", pi >= 4, pre[p], hists[h], v["what"].as_str().unwrap_or("")),
-                    json!({"prefix":pre[p],"history":hists[h],"config":cfg,"flush_after":flush}),
+                    json!({"prop":prop,"prefix":pre[p],"history":hists[h],"config":cfg,"flush_after":flush}),
                 ));
             } else if v["t"] == "S" {
                 total.evaluations += v["evals"].as_u64().unwrap_or(0);
